@@ -1,6 +1,8 @@
 package h
 
 import (
+	"errors"
+
 	z "github.com/Oudwins/zog"
 	v "github.com/Oudwins/zog/zzverif"
 )
@@ -25,6 +27,7 @@ func C02_Jobs() []string {
 	for _, j := range []string{"parse/T2/int/d1", "parse/T2/slice/d0", "validate/T2/struct/d1", "parse/T4/nested/d1", "parse/T3/int/d1", "parse/T1/int/d1"} {
 		out = append(out, "afterpanic/"+j)
 	}
+	out = append(out, "extra/preprocess-slice", "extra/preprocess-struct/parse", "extra/preprocess-struct/validate", "extra/own-coercer", "extra/multi-issue-test/parse", "extra/multi-issue-test/validate")
 	return out
 }
 func C01_Covers() []string { return []string{"no-issues", "issues"} }
@@ -128,9 +131,111 @@ func C01_Run(job string) {
 	if sh.top != nil && sh.top.TCode != "" {
 		v.Assert(o.dest.I != sh.top.TX, "C01:struct-test-not-enforced")
 	}
+	if sh.top != nil {
+		for _, kid := range sh.top.Kids {
+			if in, ok := kid.(*StructNode); ok && in.TCode != "" && !(sh.mode == Parse && in.Class == cBad) {
+				v.Assert(o.dest.N.X != in.TX, "C01:struct-test-not-enforced")
+			}
+		}
+	}
 }
 
+// node kinds outside the shape family, with hand-written expectations
+func c02Extra(kind, mode string) {
+	g := v.Int("g")
+	x, y := v.Int("x"), v.Int("y")
+	bad := func(n int) int { return v.B2I(!(n > g)) }
+	switch kind {
+	case "preprocess-slice":
+		// every element is checked, whatever happened at earlier elements
+		el := z.Preprocess(func(n int, c z.Ctx) (int, error) { return n, nil }, z.Int().GT(g).Required())
+		var d []int
+		errs := z.Slice(el).Parse([]any{x, y, "zz"}, &d)
+		want := bad(x) + bad(y) + 1
+		n := 0
+		for k, l := range errs {
+			if k != "$first" {
+				n += len(l)
+			}
+		}
+		v.Assert(n == want, "C02:issues-differ-from-violations")
+		v.Assert(len(errs["[0]"]) == bad(x) && len(errs["[1]"]) == bad(y) && len(errs["[2]"]) == 1 && errs["[2]"][0].Code == "coerce", "C02:issues-differ-from-violations")
+		v.Assert((errs == nil) == (want == 0), "C02:nil-iff-no-violation")
+	case "preprocess-struct":
+		var d struct{ A, P int }
+		var errs z.ZogIssueMap
+		if mode == "validate" {
+			// in Validate mode the Preprocess function receives the pointer to the value
+			s := z.Struct(z.Schema{"a": z.Int().GT(g), "p": z.Preprocess(func(n *int, c z.Ctx) (int, error) { return *n, nil }, z.Int().GT(g))})
+			v.Assume(v.And(x != 0, y != 0))
+			d.A, d.P = x, y
+			errs = s.Validate(&d)
+		} else {
+			s := z.Struct(z.Schema{"a": z.Int().GT(g), "p": z.Preprocess(func(n int, c z.Ctx) (int, error) { return n, nil }, z.Int().GT(g))})
+			errs = s.Parse(map[string]any{"a": x, "p": y}, &d)
+		}
+		v.Assert(len(errs["a"]) == bad(x) && len(errs["p"]) == bad(y), "C02:issues-differ-from-violations")
+		v.Assert((errs == nil) == (bad(x)+bad(y) == 0), "C02:nil-iff-no-violation")
+	case "own-coercer":
+		// a schema's own coercer decides coercion for every input, also one that already has the
+		// destination's type
+		co := func(in any) (any, error) {
+			if n, ok := in.(int); ok && n >= 0 {
+				return n, nil
+			}
+			return nil, errBadInput
+		}
+		var d int
+		errs := z.Int(z.WithCoercer(co)).GT(g).Parse(x, &d)
+		switch {
+		case x < 0:
+			v.Assert(len(errs) == 1 && errs[0].Code == "coerce", "C02:issues-differ-from-violations")
+		case !(x > g):
+			v.Assert(len(errs) == 1 && errs[0].Code == "gt", "C02:issues-differ-from-violations")
+		default:
+			v.Assert(len(errs) == 0, "C02:nil-iff-no-violation")
+		}
+	case "multi-issue-test":
+		// one test function may report several issues: all of them are reported (and all of them
+		// are swallowed on a catching node)
+		two := z.Test{Func: func(val any, c z.Ctx) {
+			c.AddIssue(c.Issue().SetCode("first"))
+			c.AddIssue(c.Issue().SetCode("second"))
+		}}
+		catching := v.Choice("catching", 2) == 1
+		s := z.Int().Test(two)
+		if catching {
+			s = s.Catch(7)
+		}
+		var d struct{ A, B int }
+		d.A, d.B = 1, 1
+		st := z.Struct(z.Schema{"a": s, "b": z.Int().GT(g)})
+		var errs z.ZogIssueMap
+		if mode == "validate" {
+			v.Assume(y != 0)
+			d.B = y
+			errs = st.Validate(&d)
+		} else {
+			errs = st.Parse(map[string]any{"a": 1, "b": y}, &d)
+		}
+		if catching {
+			v.Assert(len(errs["a"]) == 0 && d.A == 7, "C02:issues-differ-from-violations")
+		} else {
+			v.Assert(len(errs["a"]) == 2 && errs["a"][0].Code == "first" && errs["a"][1].Code == "second", "C02:issues-differ-from-violations")
+		}
+		v.Assert(len(errs["b"]) == bad(y), "C02:issues-differ-from-violations")
+	}
+	v.Cover("issues")
+	v.Cover("no-issues")
+}
+
+var errBadInput = errors.New("bad input")
+
 func C02_Run(job string) {
+	if a, kind, mode, _ := split3(job); a == "extra" {
+		c02Extra(kind, mode)
+		return
+	}
 	if len(job) > 11 && job[:11] == "afterpanic/" {
 		c07Prior("panicking")
 		job = job[11:]
